@@ -5,7 +5,7 @@ import vlib
 MC_CFG = ("CONSTANTS Depth = %d Focus = \"%s\"\nSPECIFICATION Spec20\nINVARIANTS UniqueUserDNs CodesOK%s\n"
           "PROPERTIES AddFound DeleteGone ModifyMissing\nCHECK_DEADLOCK FALSE\n")
 SIM_CFG = "CONSTANTS Depth = %d Focus = \"%s\"\nSPECIFICATION Spec20\nINVARIANTS UniqueUserDNs CodesOK Emit\nCHECK_DEADLOCK FALSE\n"
-TRACE_CFG = "INIT InitT\nNEXT NextT\nINVARIANTS ReplyConforms SearchConforms SearchCodesConform GenericSearchConforms TokenGroupsConform BindConforms NotStuck\nCHECK_DEADLOCK FALSE\n"
+TRACE_CFG = "INIT InitT\nNEXT NextT\nINVARIANTS ReplyConforms SearchConforms SearchCodesConform GenericSearchConforms TokenGroupsConform BindConforms BackgroundBindsConform NotStuck\nCHECK_DEADLOCK FALSE\n"
 
 
 def behaviours_of(out):
@@ -16,7 +16,7 @@ def behaviours_of(out):
     return res
 
 
-def run_pipeline(run, exh_depth, sim_depth, sim_num, sim_cap, focus="all"):
+def run_pipeline(run, exh_depth, sim_depth, sim_num, sim_cap, focus="all", bgbind=False):
     """returns dict(mc, behaviours, rows, res)"""
     mc = run.tlc("Dir20", MC_CFG % (exh_depth, focus, " Emit"), workers=4, timeout=1800)
     if mc.violations:
@@ -36,7 +36,7 @@ def run_pipeline(run, exh_depth, sim_depth, sim_num, sim_cap, focus="all"):
     bfile = run.path("b20.ndjson")
     vlib.write_ndjson(bfile, [{"behaviour": b} for b in behs])
     obs = run.path("o20.ndjson")
-    run.harness(["c20", "-in", bfile, "-out", obs, "-par", "8"], timeout=3000)
+    run.harness(["c20", "-in", bfile, "-out", obs, "-par", "8"] + (["-bgbind"] if bgbind else []), timeout=3000)
     rows = vlib.read_ndjson(obs)
     res = run.tlc("Dir20Trace", TRACE_CFG, env={"OBS": obs}, workers=1, cont=True, timeout=1800, heap="8g")
     return {"mc": mc, "behaviours": behs, "rows": rows, "res": res, "nexh": len(behs) - len(uniq[:sim_cap]), "nsim": len(uniq[:sim_cap])}
